@@ -87,6 +87,10 @@ CharSet(s) == {s[i] : i \in 1..Len(s)}
 (* Numbers <-> text                                                        *)
 (***************************************************************************)
 PlainQ(n) == Has(n, "q") /\ AbsI(n.q) < 4000000
+\* exact decimal text of named numbers that need more than 53 bits (they print in full, below the 10^21 switch to exponents)
+LmText == [f64intp |-> <<"9", "0", "0", "7", "1", "9", "9", "2", "5", "4", "7", "4", "0", "9", "9", "3">>, u64max |-> <<"1", "8", "4", "4", "6", "7", "4", "4", "0", "7", "3", "7", "0", "9", "5", "5", "1", "6", "1", "5">>, i64max |-> <<"9", "2", "2", "3", "3", "7", "2", "0", "3", "6", "8", "5", "4", "7", "7", "5", "8", "0", "7">>, almost1 |-> <<"0", ".", "9", "9", "9", "9", "9", "9", "9", "9", "9", "9", "9", "9", "9", "9", "9", "9", "9", "9", "9", "9">>, malmost3 |-> <<"-", "2", ".", "9", "9", "9", "9", "9", "9", "9", "9", "9", "9", "9", "9", "9", "9", "9", "9", "9", "9", "9", "9">>, u64maxpp |-> <<"1", "8", "4", "4", "6", "7", "4", "4", "0", "7", "3", "7", "0", "9", "5", "5", "1", "6", "1", "7">>]
+NumTextable(n) == PlainQ(n) \/ (Has(n, "lm") /\ n.lm \in DOMAIN LmText)
+NumText(n) == IF Has(n, "q") THEN QText(n.q) ELSE LmText[n.lm]
 LetterVals == <<10, 11, 12, 13, 14, 15, 17, 22, 23, 28, 29, 30, 33, 35>>       \* digit values of Lowers in bases up to 36
 DigitVal(c) == IF IsDigitC(c) THEN IdxIn(c, Digits) - 1
                ELSE IF IdxIn(LowerC(c), Lowers) > 0 THEN LetterVals[IdxIn(LowerC(c), Lowers)] ELSE 99
@@ -132,7 +136,7 @@ QuoteS(s) == <<"\"">> \o ConcatAll([i \in 1..Len(s) |-> EscC(s[i])]) \o <<"\"">>
 JText(v) ==
   IF v.st = "null" THEN <<"n", "u", "l", "l">>
   ELSE CASE v.ty.k = "bool" -> IF BoolOf(v) THEN <<"t", "r", "u", "e">> ELSE <<"f", "a", "l", "s", "e">>
-         [] v.ty.k = "number" -> QText(v.v.q)
+         [] v.ty.k = "number" -> NumText(v.v)
          [] v.ty.k = "string" -> QuoteS(StrOf(v))
          [] v.ty.k \in {"list", "tuple"} -> <<"[">> \o JoinWith([i \in 1..Len(Elems(v)) |-> JText(Elems(v)[i])], <<",">>) \o <<"]">>
          [] v.ty.k \in {"map", "object"} ->
@@ -142,7 +146,7 @@ RECURSIVE JTextable(_)
 JTextable(v) ==      \* the reference can spell v as JSON text
   v.st = "null" \/ (v.st = "k" /\ v.mk = <<>> /\
     CASE v.ty.k = "bool" -> TRUE
-      [] v.ty.k = "number" -> PlainQ(v.v)
+      [] v.ty.k = "number" -> NumTextable(v.v)
       [] v.ty.k = "string" -> KnownStr(StrOf(v))
       [] v.ty.k \in {"list", "tuple"} -> \A i \in 1..Len(Elems(v)) : JTextable(Elems(v)[i])
       [] v.ty.k \in {"map", "object"} -> \A n \in DOMAIN Attrs(v) : KeyRank(n) < 4 /\ JTextable(Attrs(v)[n])
@@ -156,7 +160,7 @@ FmtVerb(vb, arg) ==
   ELSE CASE vb.mode = "v" ->
               IF "#" \in vb.fl THEN (IF JTextable(arg) THEN OKV(PadTo(vb, JText(arg))) ELSE UNDEF)
               ELSE IF arg.ty.k = "string" THEN OKV(PadTo(vb, StrOf(arg)))
-              ELSE IF arg.ty.k = "number" THEN (IF PlainQ(arg.v) THEN OKV(PadTo(vb, QText(arg.v.q))) ELSE UNDEF)
+              ELSE IF arg.ty.k = "number" THEN (IF NumTextable(arg.v) THEN OKV(PadTo(vb, NumText(arg.v))) ELSE UNDEF)
               ELSE IF JTextable(arg) THEN OKV(PadTo(vb, JText(arg))) ELSE UNDEF
          [] vb.mode = "t" ->
               IF arg.ty.k = "bool" THEN OKV(IF BoolOf(arg) THEN <<"t", "r", "u", "e">> ELSE <<"f", "a", "l", "s", "e">>)
@@ -168,7 +172,7 @@ FmtVerb(vb, arg) ==
          [] vb.mode \in {"s", "q"} ->
               LET s0 == IF arg.ty.k = "string" THEN StrOf(arg)
                         ELSE IF arg.ty.k = "bool" THEN (IF BoolOf(arg) THEN <<"t", "r", "u", "e">> ELSE <<"f", "a", "l", "s", "e">>)
-                        ELSE IF arg.ty.k = "number" /\ PlainQ(arg.v) THEN QText(arg.v.q) ELSE <<"?">>
+                        ELSE IF arg.ty.k = "number" /\ NumTextable(arg.v) THEN NumText(arg.v) ELSE <<"?">>
                   s1 == IF vb.p > 0 THEN TakeCl(s0, vb.p) ELSE s0 IN
               IF arg.ty.k \notin {"string", "bool", "number"} THEN REJ
               ELSE IF s0 = <<"?">> \/ ~KnownStr(s0) \/ vb.p = 0 THEN UNDEF     \* "%.0s": the documentation and the code disagree on nothing we can cite
